@@ -25,7 +25,9 @@ from sim.core import Streams, Violation, HarnessError
 ROOT = os.path.dirname(os.path.dirname(os.path.abspath(__file__)))
 KNOWN_FILE = os.path.join(ROOT, 'KNOWN_FINDINGS.txt')
 REPLAY_DIR = os.path.join(ROOT, 'replays')
-EVIDENCE_DIR = os.path.join(ROOT, 'evidence')
+# (tools_seeded.py points this elsewhere: runs against a deliberately broken tree must
+# not overwrite the evidence of the registered checks)
+EVIDENCE_DIR = os.environ.get('VERIF_EVIDENCE_DIR') or os.path.join(ROOT, 'evidence')
 
 ENGINES = {
     'C16': 'engines.c16',
